@@ -2256,7 +2256,13 @@ class Mailbox:
             # is mostly a nicety making the expunge messages a bit easier to
             # read.
             #
-            to_delete = sorted(msg_keys_to_delete, reverse=True)
+            # (A key in `Deleted` that is not the key of a message we know is
+            # nothing we can expunge.)
+            #
+            to_delete = sorted(
+                (x for x in msg_keys_to_delete if x in self._msg_key_to_idx),
+                reverse=True,
+            )
             uids_to_delete = [
                 self.uids[self._msg_key_to_idx[x]] for x in to_delete
             ]
@@ -2319,24 +2325,36 @@ class Mailbox:
                 continue
             which = self._msg_key_to_idx[msg_key]
             uid = self.uids[which]
+
+            # The message's file and everything we hold about the message go
+            # together, with no `await` in between: when we are cancelled
+            # (the server is shutting down, the command timed out) what gets
+            # committed to the db must describe what is in the folder. A
+            # message that we no longer know of but whose file is still there
+            # comes back as a new message; a sequence that still mentions a
+            # removed message hands its flags to the next message that gets
+            # that key.
+            #
+            # (Also: lookups by uid or message key that do not go through the
+            # command queue - POP3 - must not see indexes from before the
+            # lists shrank.)
+            #
+            try:
+                self.mailbox.remove(msg_key)
+            except KeyError:
+                logger.warning(
+                    "Mailbox: '%s': msg key %d has no file", self.name, msg_key
+                )
             del self.msg_keys[which]
             del self.uids[which]
             self.num_msgs -= 1
-            # (Before we await: lookups by uid or message key that do not go
-            # through the command queue - POP3 - must not see indexes from
-            # before the lists shrank.)
-            #
+            for seq in self.sequences.values():
+                seq.discard(msg_key)
+            self.num_recent = len(self.sequences["Recent"])
             self._rebuild_index_dicts()
-            await self.mailbox.aremove(msg_key)
             expunge_msg = f"* {which + 1} EXPUNGE\r\n"
             await self._dispatch_or_pend_notifications(expunge_msg)
         self._rebuild_index_dicts()
-
-        # Remove all deleted msg keys from all sequences
-        #
-        for seq in self.sequences.keys():
-            for msg_key in to_delete:
-                self.sequences[seq].discard(msg_key)
         self.num_recent = len(self.sequences["Recent"])
 
         # The folder's .mh_sequences file must not keep mentioning the
